@@ -1,4 +1,5 @@
 import MiniconfVerif.Lemmas.GenTieLeaf
+import MiniconfVerif.Lemmas.GenTieDerive
 import MiniconfVerif.Lemmas.GenTieImpls
 import MiniconfVerif.Lemmas.GenTie
 import MiniconfVerif.Lemmas.WalkStruct
@@ -153,6 +154,17 @@ children and their order, callback arguments `(index, name, len)`, `Inner(1)` on
 `increment` on the way up.  The transparent wrappers (`Option`, `Cell`, `RefCell`, `Box`, `Rc`, `Arc`, both `Weak`s,
 `Cow`, `Mutex`, `RwLock`, `&T`, `&mut T`) are checked by the translator to be the plain delegation to `T`. -/
 theorem source_containers_are_model : ContainerTies := containerTies
+
+open MiniconfVerif.Gen MiniconfVerif.GenTie in
+/-- **The code `#[derive(TreeKey)]` generates** — obtained on every run by running the macro crate's own source
+(`/verif/expander`) on every struct / enum of the generated corpus, and translated like the container impls
+(`Gen/Derive.lean`, `Lemmas/GenTieDerive.lean`: one theorem per type, both regenerated on every run) — is the model's
+traversal at the node the declaration denotes: the lookup (field names after `rename` / `skip`, variant names without the
+skipped and unit variants, numbered for tuple structs), the children and their order (arm `i` ↦ the `i`-th retained
+field, its `typ` override if any), callback arguments, `Inner(1)` on callback failure, one `increment` on the way up; a
+`#[tree(flatten)]` type is its only child (no key consumed, no callback, no increment).  The run additionally checks that
+the schema these readings compose to for every corpus type is the one the corpus generator reads off the definition. -/
+theorem source_derive_is_model : DeriveTies := deriveTies
 
 
 open MiniconfVerif.Gen MiniconfVerif.GenTie in
